@@ -240,7 +240,10 @@ func (rd *reader) readItem(s *cryptobyte.String, it Item, itemExp, rest []byte, 
 			rd.fail(it, p, "ReadASN1Enum = %d, wrote %d", v, it.I)
 		}
 	case "int64tag":
-		var v int64
+		v := junk64
+		if it.R%2 == 0 {
+			v = 0x0102030405060708
+		}
 		if !s.ReadASN1Int64WithTag(&v, cbasn1.Tag(it.Tag)) || v != it.I {
 			rd.fail(it, p, "ReadASN1Int64WithTag(%#x) = %d, wrote %d", it.Tag, v, it.I)
 		}
@@ -364,6 +367,12 @@ func (rd *reader) readPlain(s *cryptobyte.String, it Item, itemExp []byte, p str
 	}
 }
 
+// Output variables are handed to the readers holding junk (a caller may reuse a variable):
+// every reader has to overwrite its output completely.
+const junk64 = int64(-0x0123456789abcdf0)
+
+func junkBig() *big.Int { v, _ := new(big.Int).SetString("-123456789012345678901234567890", 10); return v }
+
 func fitsInt(v int64, bits uint) bool { return v >= -(1<<(bits-1)) && v < 1<<(bits-1) }
 
 func (rd *reader) readInt64(s *cryptobyte.String, it Item, p string) {
@@ -376,14 +385,17 @@ func (rd *reader) readInt64(s *cryptobyte.String, it Item, p string) {
 		ok, what = s.ReadASN1Integer(&x), "*int"
 		got = int64(x)
 	case v == 2:
-		var x big.Int
-		x.SetInt64(-1)
+		x := *junkBig()
 		ok, what = s.ReadASN1Integer(&x), "*big.Int"
 		if ok && !x.IsInt64() {
 			ok = false
 		}
 		got = x.Int64()
 	case v == 3:
+		got = junk64
+		if it.R%2 == 0 {
+			got = 0x0102030405060708
+		}
 		ok, what = s.ReadASN1Int64WithTag(&got, cbasn1.INTEGER), "Int64WithTag"
 	case v == 4 && fitsInt(it.I, 32):
 		var x int32 = 9
@@ -398,7 +410,7 @@ func (rd *reader) readInt64(s *cryptobyte.String, it Item, p string) {
 		ok, what = s.ReadASN1Integer(&x), "*uint64"
 		got = int64(x)
 	default:
-		got = 9
+		got = junk64
 		ok, what = s.ReadASN1Integer(&got), "*int64"
 	}
 	if !ok || got != it.I {
@@ -503,9 +515,16 @@ func (rd *reader) readOptional(s *cryptobyte.String, it Item, itemExp, rest []by
 					r.Failf(key, "%s: ReadOptionalASN1Integer absent: got %d want default %d", p, v, it.I)
 				}
 			case 1:
-				var v big.Int
-				if !s.ReadOptionalASN1Integer(&v, tag, big.NewInt(it.I)) || v.Cmp(big.NewInt(it.I)) != 0 {
-					r.Failf(key, "%s: ReadOptionalASN1Integer(*big.Int) absent: got %v want default %d", p, &v, it.I)
+				v, def := junkBig(), big.NewInt(it.I)
+				if !s.ReadOptionalASN1Integer(v, tag, def) || v.Cmp(big.NewInt(it.I)) != 0 {
+					r.Failf(key, "%s: ReadOptionalASN1Integer(*big.Int) absent: got %v want default %d", p, v, it.I)
+				}
+				// the caller reuses its output variable for the next value (what a present read does);
+				// its default must still be the default for the next absent read
+				v.SetInt64(it.I ^ 0x7e7e7e)
+				v.Add(v, big.NewInt(3))
+				if def.Cmp(big.NewInt(it.I)) != 0 {
+					r.Failf(key, "%s: ReadOptionalASN1Integer(*big.Int) absent: after the output variable was reused, the caller's default %d reads %v (output and default share storage)", p, it.I, def)
 				}
 			default:
 				var v uint64 = 1
@@ -559,7 +578,7 @@ func (rd *reader) readOptional(s *cryptobyte.String, it Item, itemExp, rest []by
 		def := it.I ^ 0x5a5a
 		switch v := it.R % 3; {
 		case v == 1:
-			var x big.Int
+			x := *junkBig()
 			if !s.ReadOptionalASN1Integer(&x, tag, big.NewInt(def)) || x.Cmp(big.NewInt(it.I)) != 0 {
 				rd.fail(it, p, "ReadOptionalASN1Integer(*big.Int) present: got %v wrote %d", &x, it.I)
 			}
@@ -569,7 +588,7 @@ func (rd *reader) readOptional(s *cryptobyte.String, it Item, itemExp, rest []by
 				rd.fail(it, p, "ReadOptionalASN1Integer(*uint64) present: got %d wrote %d", x, it.I)
 			}
 		default:
-			var x int64
+			x := junk64
 			if !s.ReadOptionalASN1Integer(&x, tag, def) || x != it.I {
 				rd.fail(it, p, "ReadOptionalASN1Integer present: got %d wrote %d", x, it.I)
 			}
